@@ -11,7 +11,8 @@ use crate::style::DecorationStyle;
 use crate::{features, utils};
 
 // https://git-scm.com/docs/git-config#Documentation/git-config.txt-diffmnemonicPrefix
-const DIFF_PREFIXES: [&str; 6] = ["a/", "b/", "c/", "i/", "o/", "w/"];
+// (`1/` and `2/`: `git diff --no-index` under diff.mnemonicPrefix)
+const DIFF_PREFIXES: [&str; 8] = ["a/", "b/", "c/", "i/", "o/", "w/", "1/", "2/"];
 
 /// Appended to the name of a binary file in the file header.
 pub const BINARY_FILE_SUFFIX: &str = " (binary file)";
